@@ -6,6 +6,7 @@ package main
 import (
 	"fmt"
 	"path/filepath"
+	"regexp"
 	"sort"
 	"strings"
 
@@ -145,7 +146,15 @@ func runList(dir string, focus string, env *execEnv, caseStr string) (res *Sx, v
 	}
 	env.count("list-ok")
 	viols = append(viols, checkWellFormed(conns, peers, caseStr)...)
-	return listResultSx(conns, peers), viols
+	r := listResultSx(conns, peers)
+	if b := blockedPeers(ca); len(b) > 0 {
+		x := Ls(At("blocked"))
+		for _, n := range b {
+			x.Add(At(n))
+		}
+		r.Add(x)
+	}
+	return r, viols
 }
 
 func init() {
@@ -311,6 +320,35 @@ func init() {
 			}
 			if r.P(20) {
 				add("ingress-controller")
+			}
+			return c
+		},
+		exec: execWorldCase,
+	}
+}
+
+var blockedRe = regexp.MustCompile(`specified workload (\S+) as a backend, but network policies are blocking`)
+
+// blockedPeers: the workloads named by "blocked ingress" warnings
+func blockedPeers(ca *connlist.ConnlistAnalyzer) []string {
+	var r []string
+	for _, e := range ca.Errors() {
+		if m := blockedRe.FindStringSubmatch(e.Error().Error()); m != nil {
+			r = append(r, m[1])
+		}
+	}
+	sort.Strings(r)
+	return r
+}
+
+func init() {
+	families["ingress"] = family{
+		gen: func(r *Rng, id int, tier string) *Sx {
+			cfg := &genCfg{anp: r.P(25), banp: true, pods: true, ingress: true, namedOnIPPct: 0, maxNP: 3, maxWl: 4}
+			w := genWorld(r, cfg)
+			c := Ls(At("wcase"), Ai(int64(id)), w.Sx(), Ls(At("list"), At("-")))
+			if r.P(30) {
+				c.Add(Ls(At("list"), At("ingress-controller")))
 			}
 			return c
 		},
